@@ -64,6 +64,7 @@ where
         } else {
             let mut q = q.clone();
             for cond in q.queries_mut() {
+                let mut is_first = true;
                 for expr in cond.conds().clone().iter() {
                     let mut result = HashSet::new();
                     for (k, v) in db.iter() {
@@ -78,7 +79,13 @@ where
                             result.insert(k.as_bytes().to_vec().into_boxed_slice());
                         }
                     }
-                    cond.calc(&result);
+                    if is_first {
+                        // an empty first result is still a constraint
+                        cond.result = result;
+                        is_first = false;
+                    } else {
+                        cond.calc(&result);
+                    }
                 }
             }
 
@@ -171,11 +178,7 @@ impl Cond {
     pub fn calc(&mut self, v: &HashSet<Box<[u8]>>) {
         match self.r#type {
             CondType::And => {
-                if self.result.is_empty() {
-                    self.result = v.clone();
-                } else {
-                    self.result = self.result.intersection(v).cloned().collect::<HashSet<_>>()
-                }
+                self.result = self.result.intersection(v).cloned().collect::<HashSet<_>>()
             }
             CondType::Or => {
                 if self.result.is_empty() {
